@@ -227,8 +227,85 @@ struct ChunkStats {
     distinct_obs: BTreeSet<u64>,
 }
 
+/// differential of the pure frame parser against the checker's own independent RESP reader:
+/// same outcome kind (frame / need-more / error), same value, same number of bytes consumed
+fn diff_reference(input: &[u8]) -> Option<String> {
+    let ours = crate::resp::decode(input);
+    if let Err(crate::resp::DecodeErr::Malformed(m)) = &ours {
+        if m == "non-canonical length" {
+            return None; // "-0", "+1", "01" as a declared length: don't care
+        }
+    }
+    let theirs = std::panic::catch_unwind(|| parse_resp_frame(input));
+    let theirs = match theirs {
+        Ok(t) => t,
+        Err(_) => return Some("C20|DIFF|parse_resp_frame panicked".into()),
+    };
+    fn to_r(f: &F) -> Option<crate::resp::R> {
+        use crate::resp::R;
+        Some(match f {
+            F::SimpleString(b) => R::Simple(b.to_vec()),
+            F::Error(b) => R::Err(b.to_vec()),
+            F::Integer(i) => R::Int(*i),
+            F::BulkString(Some(b)) => R::Bulk(b.to_vec()),
+            F::BulkString(None) => R::Nil,
+            F::Array(None) => R::NilArr,
+            F::Array(Some(v)) => R::Arr(v.iter().map(to_r).collect::<Option<Vec<_>>>()?),
+            F::Null => R::Null,
+            F::Boolean(b) => R::Bool(*b),
+            F::Double(d) => R::Double(*d),
+            F::Set(v) => R::Set(v.iter().map(to_r).collect::<Option<Vec<_>>>()?),
+            F::Map(v) => R::Map(v.iter().map(|(k, x)| Some((to_r(k)?, to_r(x)?))).collect::<Option<Vec<_>>>()?),
+            F::NoResponse => return None,
+        })
+    }
+    let t = match input.first() {
+        Some(c) => *c as char,
+        None => ' ',
+    };
+    match (ours, theirs) {
+        (Ok(None), Ok(None)) => None,
+        (Err(_), Err(_)) => None,
+        (Ok(Some((a, n))), Ok(Some((b, m)))) => {
+            let same = match to_r(&b) {
+                Some(rb) => format!("{:?}", rb) == format!("{:?}", a),
+                None => false,
+            };
+            if !same {
+                Some(format!("C20|DIFF|type {}|different value", t))
+            } else if n != m {
+                Some(format!("C20|DIFF|type {}|different consumed count", t))
+            } else {
+                None
+            }
+        }
+        // both say "no frame (yet)": when an error is detected is not prescribed
+        (Ok(None), Err(_)) | (Err(_), Ok(None)) => None,
+        (o, th) => {
+            let k = |x: &str| x.to_string();
+            let ok = match &o {
+                Ok(Some(_)) => k("frame"),
+                Ok(None) => k("need-more"),
+                Err(_) => k("error"),
+            };
+            let tk = match &th {
+                Ok(Some(_)) => k("frame"),
+                Ok(None) => k("need-more"),
+                Err(_) => k("error"),
+            };
+            Some(format!("C20|DIFF|type {}|reference={}|parser={}", t, ok, tk))
+        }
+    }
+}
+
 fn check_input(input: &[u8], max_cuts: usize, st: &mut ChunkStats) {
     st.inputs += 1;
+    if let Some(sig) = diff_reference(input) {
+        st.dev_count += 1;
+        if st.devs.iter().filter(|d| d["sig"].as_str() == Some(sig.as_str())).count() < 2 && st.devs.len() < 200 {
+            st.devs.push(json!({"sig": sig, "input": crate::resp::show_bytes(input), "input_hex": hex(input)}));
+        }
+    }
     let whole = match observe(&[input]) {
         Ok(o) => o,
         Err(_) => {
